@@ -38,6 +38,8 @@ class _HMixin:
             self.sh.nap(self.begin_delay)      # a slow begin(): until_all_ready() has something to wait for
         if self.fault and self.fault[0] == "begin":
             self.sh.log("begin_raise", wid=self.wid)
+            if self.fault[-1] == "system_exit":
+                raise SystemExit(3)         # sys.exit() in user code: a BaseException that is no Exception
             raise RuntimeError("injected fault in begin()")
         self.sh.log("begin_exit", wid=self.wid)
 
@@ -54,6 +56,8 @@ class _HMixin:
         self.sh.log("item", wid=self.wid, call=call, idx=idx)
         if self.fault and self.fault[0] == "item" and self.fault[1] == call and self.fault[2] == idx:
             self.sh.log("item_raise", wid=self.wid, call=call, idx=idx)
+            if self.fault[-1] == "system_exit":
+                raise SystemExit(3)         # sys.exit() in user code: a BaseException that is no Exception
             raise RuntimeError("injected fault in functor")
         if dur:
             self.sh.nap(dur)
